@@ -22,7 +22,13 @@ RULE = ('real TransmissionModel (compact and inflated atmospheres: top at 0.01..
         'for an absorbing trace gas and for an added scatter-only gas (N2 / O2) at 5-40 %, with Rayleigh scattering present, '
         'wavenumbers 5000-30000 cm-1 and a surface pressure of 1e5-1e7 Pa; the Rayleigh and CIA cross-sections are rebuilt '
         'from the per-molecule laws / per-pair tables and the abundances of each layer by the Lean model '
-        '(AbsorptionGrid.scaledSigma / ciaSigma), compared with the prepared contributions, and enter the documented integral. '
+        '(AbsorptionGrid.scaledSigma / ciaSigma), compared with the prepared contributions, and enter the documented integral; '
+        'one case in ten has tables whose wavenumber AXIS is stored as an integer array (int64 / int32 / uint16: whole '
+        'wavenumbers, the native grid then has that dtype); one case in ten (and every second integer-axis case, and every third re-used '
+        'object) also evaluates the two other routes that return transit depths - model_contrib() per contribution and '
+        'model_full_contrib() per component (>= 2 molecules, Rayleigh scattering present) - each judged against the Lean depth / '
+        'transmittance of that opacity alone (component cross-sections rebuilt from that species\' table x abundance) and '
+        'against the documented integral. '
         'distinct non-trivial = distinct '
         '(layers, contribution multiset, regime, method) with at least one column neither transparent nor saturated')
 USES_MODELS = ['C19']
@@ -270,6 +276,20 @@ def regrid(rng, spec, cls):
     return spec
 
 
+AXIS_DTYPES = ['int64', 'int32', 'int64', 'uint16', 'int64']      # (whole numbers: the stored values are the same numbers)
+
+
+def whole_wavenumbers(rng, spec, dtype):
+    """every table of `spec` on ONE grid of whole wavenumbers (300..30000 cm-1) whose axis is stored as `dtype`"""
+    n = len(spec['opacities'][0]['wn'])
+    wn = np.sort(rng.choice(np.arange(300.0, 30000.0, 7.0), size=n, replace=False))
+    for o in spec['opacities']:
+        o['wn'] = wn.copy()
+        o['wn_dtype'] = dtype
+    spec['axis_dtype'] = dtype
+    return spec
+
+
 ZERO_PATTERNS = ['zero-aloft', 'zero-below', 'zero-in-one-layer', 'zero-aloft', 'zero-in-scattered-layers']
 SCATTER_ONLY = ['N2', 'O2']          # molecules with a Rayleigh law and no opacity table in these runs: never active
 
@@ -330,7 +350,25 @@ def gen_case(rng, k):
     # quota (one case in ten): molecules tabulated on wavenumber grids of their OWN (not sub-samples of one another)
     own_grids = k % 10 == 3
     zero_layers = k % 10 == 5
-    if own_grids:
+    # quota (one case in ten): the wavenumber AXIS of the tables is stored with an integer / single-precision dtype (whole
+    # wavenumbers: np.arange grids, text loaders, user-made files); the numbers are the same, so is the documented integral
+    axis_dtype = k % 10 == 1
+    # quota (one case in ten): the per-contribution / per-component routes (model_contrib, model_full_contrib) return
+    # transit depths too - of the atmosphere in which only that source / component absorbs; >= 2 molecules, Rayleigh present
+    breakdown = k % 10 == 6
+    if axis_dtype:
+        regime = ['thin', 'mid', 'thick', 'mid', 'thin'][(k // 10) % 5]
+        spec = FM.gen_spec(rng, nlayers=nl, nwn=int(rng.integers(2, 8)), regime=regime, same_grid=True, extended=ext)
+        whole_wavenumbers(rng, spec, AXIS_DTYPES[(k // 10) % len(AXIS_DTYPES)])
+    elif breakdown:
+        regime = ['mid', 'thin', 'thick'][(k // 10) % 3]
+        vis = bool((k // 10) % 2)
+        spec = FM.gen_spec(rng, nlayers=nl, ngas=int(rng.integers(2, 5)), regime=regime,
+                           same_grid=vis or bool(rng.random() < 0.8), extended=ext)
+        if vis:
+            visible_scattering(rng, spec)
+        spec['breakdown'] = True
+    elif own_grids:
         regime = ['thin', 'mid', 'thick'][(k // 10) % 3]
         spec = FM.gen_spec(rng, nlayers=nl, nwn=int(rng.integers(3, 9)), ngas=int(rng.integers(2, 5)), regime=regime,
                            same_grid=True, extended=ext)
@@ -352,11 +390,13 @@ def gen_case(rng, k):
     if rng.random() < 0.9:
         cs.append(dict(type='absorption'))
     extra = [c for c in CONTRIB_CHOICES if rng.random() < 0.3]
-    if zero_layers:
+    if zero_layers or breakdown:
         extra = [c for c in extra if c != 'rayleigh'] + ['rayleigh']
+    if axis_dtype and (k // 10) % 2 == 0:
+        spec['breakdown'] = True
     # quota (one case in ten): a grey cloud deck whose top is placed relative to the LAYER pressures of the atmosphere
     deck = k % 10 == 7
-    if own_grids and 'absorption' not in [c['type'] for c in cs]:
+    if (own_grids or breakdown or axis_dtype) and 'absorption' not in [c['type'] for c in cs]:
         cs.append(dict(type='absorption'))
     if deck:
         extra = [c for c in extra if c != 'clouds'] + ['clouds']
@@ -420,7 +460,8 @@ def small(spec):
                 contributions=[c['type'] for c in spec['contributions']], temperature=spec['temperature']['type'],
                 ngas=len(spec['gases']), pmin=spec['pmin'], pmax=spec['pmax'], planet_radius=spec['planet_radius'],
                 planet_mass=spec['planet_mass'], star_radius=spec['star_radius'], grid_class=spec.get('grid_class'),
-                cloud_top_class=spec.get('cloud_top_class'), zero_layers_class=spec.get('zero_layers_class'))
+                cloud_top_class=spec.get('cloud_top_class'), zero_layers_class=spec.get('zero_layers_class'),
+                axis_dtype=spec.get('axis_dtype'), breakdown=spec.get('breakdown'))
 
 
 def trans_close(a, b, rel=1e-9):
@@ -612,6 +653,8 @@ TNAMES = ('T', 'T_surface', 'T_top', 'T_point1')
 def gen_reuse(rng, k):
     base = gen_case(rng, [1, 2, 3, 2][k % 4] + 4 * (k % 2))
     base['extended'] = False
+    if k % 3:
+        base.pop('breakdown', None)     # (the break-down routes on a re-used object: every third history only - cost)
     names = ['planet_radius', 'planet_mass', 'atm_min_pressure', 'atm_max_pressure', 'He_H2']
     t = base['temperature']
     if t['type'] == 'isothermal':
@@ -834,6 +877,10 @@ def judge(ctx, case, spec, m, obs, do_scale, stream):
     if nothing and (not C.close(depth, np.full(nwn, o_bare), rel=1e-13) or not np.all(trans == 1.0)):
         ctx.violation('transparent-not-bare', 'nothing absorbs but depth != (Rp/Rs)^2', case,
                       dict(depth=depth, bare=o_bare))
+    # (thorough tier: every third flagged case - two more routes and one Lean evaluation per component)
+    do_bd = bool(spec.get('breakdown')) and (ctx.quick or ctx.evaluations % 3 == 0)
+    if do_bd:
+        judge_breakdown(ctx, case, spec, m, wn, p, contribs, ipaths if okp else opaths, method)
     if do_scale and not nothing:
         c = float(ctx.rng.choice([1.0, 1.5, 10.0, 1e3]))
         try:
@@ -860,8 +907,120 @@ def judge(ctx, case, spec, m, obs, do_scale, stream):
         ctx.bucket('quota:cloud-top:' + spec['cloud_top_class'])
     if spec.get('zero_layers_class'):
         ctx.bucket('quota:abundance-zero-in-some-layers:' + spec['zero_layers_class'])
+    if spec.get('axis_dtype'):
+        ctx.bucket('quota:wavenumber-axis-dtype:%s(native grid %s)' % (spec['axis_dtype'], m.nativeWavenumberGrid.dtype))
+    if do_bd:
+        ctx.bucket('quota:per-contribution-and-per-component-routes')
     if np.any(trans <= E10) and np.any(trans > 0.5):
         ctx.bucket('mixed-saturated-and-clear')
+
+
+def judge_breakdown(ctx, case, spec, m, wn, p, doc_contribs, paths, method):
+    """the other two routes that RETURN transit depths: model_contrib() (one depth per contribution: the atmosphere in which
+    only that source absorbs) and model_full_contrib() (one per component: only that molecule / pair / scatterer).  Each
+    must be the documented integral with tau built from that source's / component's cross-section alone: the Lean model
+    (Transmission.modelTrans / depth on the one opacity; the component's cross-section rebuilt by AbsorptionGrid.absSigma /
+    scaledSigma / ciaSigma from that species' table x its abundance) -> mismatch, then the integral itself (numpy) on the
+    real code's chords -> violation.  A single source is never cut off (the tau>10 break needs an earlier source)."""
+    from taurex.cache import OpacityCache, CIACache
+    from taurex.util.scattering import rayleigh_sigma_from_name
+    objs = list(m.contribution_list)
+    names = [c.name for c in objs]
+    if len(set(names)) < len(names) or not objs:
+        ctx.bucket('breakdown:skipped(name-collision-or-no-source)')
+        return
+    try:
+        _, cdict = m.model_contrib()
+        _, fdict = m.model_full_contrib()
+    except Exception as e:
+        if _invalid_params(ctx, e):
+            return
+        ctx.violation('raises-breakdown:' + type(e).__name__, 'model_contrib / model_full_contrib raised %r on a model '
+                      'that model() evaluates' % (e,), case)
+        return
+    rp, rs, z, dz, zb, dens, n = p['rp'], p['rs'], p['z'], p['dz'], p['zb'], p['density'], p['nlayers']
+    nwn = len(wn)
+    head = [C.N(1 if spec['new_path_method'] else 0), C.F(rp), C.F(rs), C.L(z), C.L(dz), C.L(zb), C.L(dens), C.N(nwn)]
+    enc = lambda ks: C.N(ks[0]) + ' ' + C.LL(np.asarray(ks[1], float).tolist())
+
+    def one(label, key, dep, tr, kind, sig):
+        dep, tr = np.asarray(dep, float), np.asarray(tr, float)
+        d = ctx.model().call('c01.spectrum', *head, C.L([(kind, sig)], enc))
+        mt = np.array(d.list(lambda: d.list())).reshape(n, nwn)
+        d.list(lambda: d.list())
+        md = np.array(d.list())
+        ctx.disagreements_checked += 1
+        if tr.shape != mt.shape or not all(trans_close(tr[l], mt[l]) for l in range(n)):
+            ctx.mismatch(label + ': exp(-tau) vs Transmission.modelTrans of that opacity alone', case,
+                         dict(impl=tr[:3], model=mt[:3]))
+        ctx.check_close(label.split('[')[0] + ' depth vs Transmission.depth of that opacity alone', dep, md, case, rel=1e-9)
+        with np.errstate(over='ignore', invalid='ignore'):
+            ot = np.exp(-tau_full(paths, dens, [(kind, np.asarray(sig, float))]))
+        od = doc_depth(rp, rs, z, dz, ot)
+        if dep.shape != od.shape or tr.shape != ot.shape or not C.close(dep, od, rel=1e-9) or \
+                not all(trans_close(tr[l], ot[l]) for l in range(n)):
+            ctx.violation(key, label + ': the transit depth returned is not the documented integral with tau built from '
+                          'that cross-section alone', case, dict(impl=dep, expected=od, route=label))
+            return False
+        return True
+
+    chem = m.chemistry
+    for i, cobj in enumerate(objs):
+        cname, kind = type(cobj).__name__, doc_contribs[i][0]
+        if cobj.name not in cdict or cobj.name not in fdict:
+            ctx.violation('breakdown-entry-missing:' + cname, 'model_contrib / model_full_contrib has no entry for a '
+                          'contribution of the model', case, dict(names=names, keys=sorted(cdict)))
+            continue
+        ctx.bucket('breakdown:contribution-judged:' + cname)
+        if not one('model_contrib()[%s]' % cobj.name, 'depth-mismatch:model_contrib:' + cname, cdict[cobj.name][0],
+                   cdict[cobj.name][1], kind, doc_contribs[i][1]):
+            continue
+        comps = fdict[cobj.name]
+        sigs = None
+        if cname == 'AbsorptionContribution':
+            gases = [str(g) for g in chem.activeGases]
+            if [str(c[0]) for c in comps] != gases:
+                ctx.violation('breakdown-components:' + cname, 'components are not one per active molecule, in order', case,
+                              dict(got=[str(c[0]) for c in comps], expected=gases))
+                continue
+            sigs = []
+            for g in gases:
+                op = OpacityCache()[g]
+                gw = np.asarray(op.wavenumberGrid, float)
+                vals = [np.asarray(op.opacity(float(t), float(pr)), float) for t, pr in zip(p['T'], p['P'])]
+                d = ctx.model().call('c01.abssigma', C.N(n), C.L(wn), C.L([(gw, vals, chem_mix(chem, g))], lambda q: C.L(
+                    q[0]) + ' ' + C.LL([v.tolist() for v in q[1]]) + ' ' + C.L(q[2])))
+                sigs.append(np.array(d.list(lambda: d.list()), float).reshape(n, nwn))
+            ctx.bucket('breakdown:absorption-components:' + ('1' if len(gases) == 1 else '>=2'))
+        elif cname == 'RayleighContribution':
+            sigs = []
+            for c in comps:
+                law = rayleigh_sigma_from_name(str(c[0]), wn)
+                if law is None:
+                    sigs = None
+                    break
+                d = ctx.model().call('c01.scaledsigma', C.N(n), C.N(nwn), C.LL([np.asarray(law, float)]),
+                                     C.LL([chem_mix(chem, str(c[0]))]))
+                sigs.append(np.array(d.list(lambda: d.list()), float).reshape(n, nwn))
+            ctx.bucket('breakdown:rayleigh-components:' + ('0-1' if len(comps) < 2 else '>=2'))
+        elif cname == 'CIAContribution':
+            sigs = []
+            for c in comps:
+                pr = str(c[0])
+                xs = [[np.asarray(CIACache()[pr].cia(float(t), wn), float) for t in p['T']]]
+                d = ctx.model().call('c01.ciasigma', C.N(n), C.N(nwn), C.LLL(xs), C.LL([chem_mix(chem, pr.split('-')[0])]),
+                                     C.LL([chem_mix(chem, pr.split('-')[1])]))
+                sigs.append(np.array(d.list(lambda: d.list()), float).reshape(n, nwn))
+        elif len(comps) == 1:
+            sigs = [doc_contribs[i][1]]
+        if sigs is None or len(sigs) != len(comps):
+            ctx.bucket('breakdown:components-not-judged:' + cname)
+            continue
+        for (nm, dep, tr, _), sg in zip(comps, sigs):
+            ctx.bucket('breakdown:component-judged:' + cname)
+            if not one('model_full_contrib()[%s][%s]' % (cobj.name, nm), 'depth-mismatch:model_full_contrib:' + cname,
+                       dep, tr, kind, sg):
+                break
 
 
 def malformed(ctx):
